@@ -257,6 +257,10 @@ class Component(CaselessDict):
             # RFC expects UTC for those... force value conversion.
             value = tzp.localize_utc(value)
 
+        if encode and isinstance(value, datetime) and name.lower() == 'trigger':
+            # the default value type of TRIGGER is DURATION
+            parameters = {'VALUE': 'DATE-TIME', **(parameters or {})}
+
         # encode value
         if encode and isinstance(value, list) \
                 and name.lower() not in ['rdate', 'exdate', 'categories']:
@@ -648,6 +652,9 @@ def create_single_property(
         if not isinstance(value, value_type):
             raise TypeError(f"Use {' or '.join(t.__name__ for t in value_type)}, not {type(value).__name__}.")
         self[prop] = vProp(value)
+        if isinstance(value, datetime) and types_factory.types_map.get(prop) == 'duration':
+            # e.g. an absolute TRIGGER: not the default value type of the property
+            self[prop].params['VALUE'] = 'DATE-TIME'
         if prop in self.exclusive:
             for other_prop in self.exclusive:
                 if other_prop != prop:
